@@ -79,6 +79,37 @@ def run(ctx):
                 ctx.case(('CNOT', n, c, t, P), P[0][c] != 'I' or P[0][t] != 'I', sample=dict(op='CNOT', N=n, c=c, t=t, P=P, result=g_))
                 if g_ != w:
                     ctx.fail('CNOT', 'CNOT(%d,%d) in %d qubits does not send X_c->X_cX_t, Z_t->Z_cZ_t' % (c, t, n), dict(P=P, got=g_, want=w))
+    # qubit labels of every integer kind (Python int, signed and unsigned numpy integers, mixed), both orientations
+    kinds = [int, np.int64, np.int32, np.int8, np.intp, np.uint8, np.uint16, np.uint32, np.uint64]
+    for _ in range(ctx.budget(150, 1500)):
+        n = rng.randrange(2, 7)
+        c, t = rng.sample(range(n), 2)
+        kc, kt = rng.choice(kinds), rng.choice(kinds)
+        if np.array([kc(c), kt(t)]).dtype.kind not in 'iu':   # numpy promotes int64 with uint64 to float: not a list of integer labels
+            kt = kc
+        lo, hi = min(c, t), max(c, t)
+        rows = cnot_rows(0 if c < t else 1, 1 if c < t else 0)
+        Ps = [G.rand_op(rng, n) for _ in range(3)]
+        for a, b in (('X', 'I'), ('I', 'Z')):
+            l = ['I'] * n; l[c] = a; l[t] = b
+            Ps.append((tuple(l), 0))
+        ctx.case(('CNOT-labels', n, c, t, kc.__name__, kt.__name__), True, sample=dict(op='CNOT', N=n, c=c, t=t, label_types=[kc.__name__, kt.__name__]))
+        ctx.count('labels:%s' % ('unsigned' if 'uint' in kc.__name__ + kt.__name__ else 'signed'))
+        try:
+            got = apply_gate(CI.CNOT(kc(c), kt(t)), Ps)
+        except Exception as e:
+            ctx.fail('CNOT', 'implementation raised %r for labels of type %s, %s' % (e, kc.__name__, kt.__name__), dict(N=n, c=c, t=t)); continue
+        want = [H.map_apply_masked(rows, [lo, hi], P) for P in Ps]
+        if got != want:
+            ctx.fail('CNOT', 'CNOT(control=%d, target=%d) with labels of type %s, %s does not send X_c->X_cX_t, Z_t->Z_cZ_t' % (c, t, kc.__name__, kt.__name__),
+                     dict(N=n, c=c, t=t, Ps=Ps, got=got, want=want))
+        name = rng.choice(list(TEXT)); q = rng.randrange(n); kq = rng.choice(kinds)
+        try:
+            got1 = apply_gate(getattr(CI, name)(kq(q)), Ps)
+        except Exception as e:
+            ctx.fail(name, 'implementation raised %r for a label of type %s' % (e, kq.__name__), dict(N=n, q=q)); continue
+        if got1 != [H.map_apply_masked(TEXT[name], [q], P) for P in Ps]:
+            ctx.fail(name, 'gate %s on qubit %d given as %s does not act by the textbook table' % (name, q, kq.__name__), dict(N=n, q=q, Ps=Ps, got=got1))
     # the 24 indexed gates
     tabs = []
     for k in range(24):
